@@ -9,7 +9,7 @@ MANIFEST_BASE = {
         "guard": "verif",
         "enable": "go build/test -tags verif (the driver passes it on every build of /repo code)",
         "baseline_off_cmd": "cd /repo && go build ./... && go test -vet=off -count=1 -timeout 25m ./...",
-        "source_commits": ["1a24631", "b1bce3c", "e841acb"],
+        "source_commits": ["1a24631", "b1bce3c", "e841acb", "25e7363"],
         "add_only": True,
     },
     "engines": [
